@@ -2,7 +2,9 @@ package rewriter
 
 import (
 	"go/ast"
+	"go/types"
 	"log"
+	"strings"
 
 	"github.com/goghcrow/go-ast-matcher"
 	"github.com/goghcrow/go-imports"
@@ -216,6 +218,40 @@ func (o *optimizer) etaReduction() {
 		),
 	}
 
+	// the callee must denote the same function whenever the closure is called:
+	// a package level function (or an instance of a generic one),
+	// or a method value of an iterator temporary generated by the rewriter.
+	// a function variable or the receiver of a method value may be reassigned
+	// between the creation of the closure and its call, and
+	// builtins / conversions are not function values at all
+	stableCallee := func(ctx astmatcher.Ctx, fun ast.Expr) bool {
+		switch x := fun.(type) {
+		case *ast.IndexExpr:
+			fun = x.X
+		case *ast.IndexListExpr:
+			fun = x.X
+		}
+		var id *ast.Ident
+		switch x := fun.(type) {
+		case *ast.Ident:
+			id = x
+		case *ast.SelectorExpr:
+			if recv, ok := x.X.(*ast.Ident); ok {
+				if strings.HasPrefix(recv.Name, cstIterVar) {
+					return true // ɪʇ.MoveNext
+				}
+				if _, isPkg := ctx.ObjectOf(recv).(*types.PkgName); isPkg {
+					id = x.Sel
+				}
+			}
+		}
+		if id == nil {
+			return false
+		}
+		fn, ok := ctx.ObjectOf(id).(*types.Func)
+		return ok && fn.Type().(*types.Signature).Recv() == nil
+	}
+
 	// assume type-checked
 	matched := func(ctx astmatcher.Ctx, paramsFields []*ast.Field, argsExprs []ast.Expr) bool {
 		if paramsFields == nil && argsExprs == nil {
@@ -259,7 +295,7 @@ func (o *optimizer) etaReduction() {
 		func(c *astmatcher.Cursor, ctx astmatcher.Ctx) {
 			params := ctx.Binds["params"].(*ast.FieldList).List
 			args := ctx.Binds["args"].(ExprsNode)
-			if matched(ctx, params, args) {
+			if matched(ctx, params, args) && stableCallee(ctx, ctx.Binds["fun"].(ast.Expr)) {
 				c.Replace(ctx.Binds["fun"])
 			}
 		},
